@@ -16,14 +16,14 @@ import (
 )
 
 type Case struct {
-	Loaders  []map[string]string `json:"loaders"` // files of each loader, in set order
-	Main     string              `json:"main"`    // entry file
-	Vars     map[string]string   `json:"vars"`    // string context variables
-	Want     eng.Q               `json:"want"`
-	WantErr  bool                `json:"want_err"`
-	Fetch    []string            `json:"fetch"` // paths that must be fetched successfully (sorted set)
-	Label    string              `json:"label"`
-	Canary   bool                `json:"canary"` // a real file exists at {{CANARY}}; its content must never appear
+	Loaders []map[string]string `json:"loaders"` // files of each loader, in set order
+	Main    string              `json:"main"`    // entry file
+	Vars    map[string]string   `json:"vars"`    // string context variables
+	Want    eng.Q               `json:"want"`
+	WantErr bool                `json:"want_err"`
+	Fetch   []string            `json:"fetch"` // paths that must be fetched successfully (sorted set)
+	Label   string              `json:"label"`
+	Canary  bool                `json:"canary"` // a real file exists at {{CANARY}}; its content must never appear
 }
 
 func (c *Case) ID() string {
@@ -231,7 +231,7 @@ type kind struct {
 	// build returns the referrer's source and the expected output given the target's marker text m and its raw source
 	src     func(name string) string
 	out     func(marker string) string
-	lazyVar bool // the name comes from the context variable "name"
+	lazyVar bool                       // the name comes from the context variable "name"
 	target  func(marker string) string // source of the target file for this kind
 	tmarker func(marker string) string // what the target renders to
 }
@@ -435,7 +435,7 @@ func init() {
 	eng.Register(&eng.Check{
 		ID:    "C11",
 		Title: "Templates are composed only through the set's loaders, by the names written",
-		Rule: "bounded-exhaustive over configurations: every reference kind x referrer directory x target x every name form x loader configuration; missing names; failing files under if_exists; all two-hop chains over 8 kinds; inheritance+include; literal vs computed rooted names; a canary file on the real file system. Recording in-memory loaders log every Abs/Get: the set of fetched paths must equal the closure of referenced names, the first loader that has a name must serve it and later loaders must not be asked, the output must equal the expectation computed from the generator's knowledge of the tree, and the canary text must never appear. All cases non-trivial.",
+		Rule:  "bounded-exhaustive over configurations: every reference kind x referrer directory x target x every name form x loader configuration; missing names; failing files under if_exists; all two-hop chains over 8 kinds; inheritance+include; literal vs computed rooted names; a canary file on the real file system. Recording in-memory loaders log every Abs/Get: the set of fetched paths must equal the closure of referenced names, the first loader that has a name must serve it and later loaders must not be asked, the output must equal the expectation computed from the generator's knowledge of the tree, and the canary text must never appear. All cases non-trivial.",
 		Assumptions: []string{
 			"harness loaders implement Abs(base, name) = cleaned name if rooted, else dir(base)/name cleaned (DESIGN.md Appendix A.8)",
 		},
